@@ -736,8 +736,8 @@ class NativeCtx:
         ns['is_nan'] = lambda x: isinstance(x, float) and x != x
         ns['is_inf'] = lambda x: isinstance(x, float) and x in (float('inf'), float('-inf'))
         ns['typename'] = lambda x: type(x).__name__
-        ns['calls'] = lambda pre='': tuple(e[0] for e in ns.get('trace', ()) if e[0].startswith(pre))
-        ns['sent'] = lambda name: tuple(e for e in ns.get('trace', ()) if e[0] == name)
+        ns['calls'] = lambda pre='': tuple(e[0] for e in self.trace if e[0].startswith(pre))
+        ns['sent'] = lambda name: tuple(e for e in self.trace if e[0] == name)
         ns['is_same'] = lambda a, b: a is b
         ns['field'] = getattr
         import binascii
